@@ -211,12 +211,23 @@ class FsmWorld(pipe.PipeWorld):
         for mod, name in ((api, 'cmd_reset'), (app, 'schedule_reset')):
             real = pipe._orig(mod, name)
 
-            def wrapped(*a, _real=real, **k):
+            def wrapped(*a, _real=real, _name=name, **k):
                 w.cause = 'reset'
+                refused = hasattr(w, 'fsm') and not w.fsm.is_pipeline_active()
+                before = w.fsm_fields() if refused else None
                 try:
                     return _real(*a, **k)
                 finally:
                     w.cause = None
+                    if refused:
+                        # C10: what is not allowed in the current state is rejected without side effects
+                        after = w.fsm_fields()
+                        w.probes['reset_refused_not_active'] += 1
+                        if before != after:
+                            diff = sorted(x for x in before if before[x] != after[x])
+                            w.violate('C10', 'refused_request_has_side_effects', f'reset@{before["state"]}:{",".join(diff)}',
+                                      f'a reset request refused because the pipeline is not active ({before["state"]}/{before["transitioning"]}) '
+                                      f'changed { {x: (before[x], after[x]) for x in diff} }')
 
             wrapped.__signature__ = __import__('inspect').signature(real)
             wrapped.__name__ = name
@@ -276,6 +287,13 @@ class FsmWorld(pipe.PipeWorld):
             self.archive_from = old
         if old == 'running' and new == 'updating':
             self.on_reload_triggered()
+        # the exit instant of a compliance process that is still running is a chooser decision: aim it at transient states
+        if new in ('archiving', 'updating', 'loading', 'contemplation') and hasattr(self, 'proc'):
+            for p in self.sim.processes:
+                if p.alive and self.ch.flip('proc.exit_now', 1, 3):
+                    when, code = self.proc._plan(p)
+                    self.proc.plan[id(p)] = (self.sim.now, code)
+                    self.probes['compliance_exit_aimed_at_transition'] += 1
         # injected not-allowed triggers are aimed at the transient states too, not only at the instants of user events
         if new != 'running' and self.cfg['mix'].get('bad_trigger') and hasattr(self, 'fsm') and self.ch.flip('bad.after_transition', 1, 4):
             self.sim.soon('bad_trigger', self.bad_trigger)
@@ -366,6 +384,8 @@ class FsmWorld(pipe.PipeWorld):
                 self.rest_bad = 0
                 self.probes['at_rest_observed'] += 1
         # C12 bounded liveness bookkeeping: since when does the condition of the strongest priority hold
+        if self.cycle is not None and not active:
+            self.cycle['hold_since'] = None  # the clock of the promptness clause only runs while the pipeline is active
         if self.cycle is not None and active:
             ok, _why = self.condition(self.cycle['P'])
             if ok:
@@ -417,8 +437,9 @@ class FsmWorld(pipe.PipeWorld):
         sub = dict(changeset=cs, priority=prio, n=self.nsub)
         if ch.flip('sub.head_mismatch', 1, 12):
             sub['head'] = 'other'
-        if ch.flip('sub.git_fails', 1, 10):
-            sub['git_fails_at'] = 1 + ch.choose('sub.git_fails_at', 5)
+        if ch.flip('sub.git_fails', *self.cfg.get('git_fail', (1, 10))):
+            at = self.cfg.get('git_fail_at') or [1, 2, 3, 4, 5]
+            sub['git_fails_at'] = at[ch.choose('sub.git_fails_at', len(at))]
         eps = self.cfg.get('endpoints') or ['/api/rev/submit', '/app/submit']
         endpoint = eps[ch.choose('sub.endpoint', len(eps))]
         active = ctx.fsm.is_pipeline_active()
